@@ -16,6 +16,14 @@ package main
 //                        anchor_reference_is_outer), also from a sub-query.  The edge table is also reached through a
 //                        common table expression from inside per-record sub-queries (the inline tables of the
 //                        enclosing nodes are inherited as well).
+//                        Set operators (UNION / EXCEPT / INTERSECT [ALL]) stand everywhere below the recursive table's own
+//                        set operator: inside the per-record sub-queries and LATERAL sub-selects of the recursive
+//                        member, as derived tables in the FROM of the anchor and of the recursive member, as a
+//                        parenthesised right-hand side `anchor UNION ALL (m1 <op> m2)` with both members reading the
+//                        working view, and in a common table expression defined AFTER the recursive one over the
+//                        finished table.  Each is an ordinary set operator evaluated in the scope where it stands
+//                        (nested_set_operator_is_ordinary; for the parenthesised form every generation is the
+//                        combination of both members applied to the generation before: two_member_generation).
 //                        Law recursive_named_eq_iterated (implementation alone): the same generations computed by
 //                        separate non-recursive queries over a temporary table holding the previous generation.
 //  scopeInheritWitness   NOW() inside per-record sub-queries = NOW() of the statement (the statement's time stamp is
@@ -46,8 +54,9 @@ func nodeOf(p value.Primary) (int, bool) {
 }
 
 // recBound: the largest number of steps (<= limit) whose results stay within `cap` rows, counted per node
-// (an upper bound: the additional predicates only remove rows); square = the working view joined with itself
-func recBound(anchor []value.Primary, edges [][2]int, square bool, limit, cap int) int {
+// (an upper bound: the additional predicates only remove rows); square = the working view joined with itself;
+// pre / post = how often a UNION ALL below / above the join repeats a record
+func recBound(anchor []value.Primary, edges [][2]int, pre int, square bool, post int, limit, cap int) int {
 	cnt := map[int]int{}
 	for _, p := range anchor {
 		if k, ok := nodeOf(p); ok {
@@ -58,10 +67,11 @@ func recBound(anchor []value.Primary, edges [][2]int, square bool, limit, cap in
 		next := map[int]int{}
 		total := 0
 		for _, e := range edges {
-			m := cnt[e[0]]
+			m := cnt[e[0]] * pre
 			if square {
 				m *= m
 			}
+			m *= post
 			if m == 0 {
 				continue
 			}
@@ -79,6 +89,19 @@ func recBound(anchor []value.Primary, edges [][2]int, square bool, limit, cap in
 		cnt = next
 	}
 	return limit
+}
+
+type setKind struct {
+	kw, tok string
+	all     bool
+}
+
+var setKinds = []setKind{{"UNION", "U", false}, {"UNION ALL", "U", true}, {"EXCEPT", "E", false}, {"EXCEPT ALL", "E", true},
+	{"INTERSECT", "I", false}, {"INTERSECT ALL", "I", true}}
+
+// setJoin: `l <op> r` as a query / plan
+func setJoin(k setKind, l, r subq) subq {
+	return subq{l.sql + " " + k.kw + " " + r.sql, append(append([]string{"SO", k.tok, b01(k.all)}, l.tok...), r.tok...)}
 }
 
 func andCond(a, b *cond) *cond {
@@ -128,6 +151,7 @@ func recursiveNamedCases(g *hc.Gen, o *hc.Out, n int) {
 	defer pr.Close()
 	defer pr.P.Tx.Flags.SetLimitRecursion(1000)
 	scopeInheritWitness(pr, o)
+	parenLimitWitness(dir, o)
 	x := &ngen{g: g}
 	rounds := n / 6
 	if rounds < 36 {
@@ -337,6 +361,34 @@ func recursiveNamedCase(g *hc.Gen, pr *hc.Proc, o *hc.Out, x *ngen, dir string, 
 			return subq{sql, tok}
 		}
 		add := func(s subq) int { *subs = append(*subs, s); return len(*subs) - 1 }
+		// every third sub-query is a set operation: a second operand over the working view or over the edges
+		withSet := func(s subq, item string) subq {
+			if g.Intn(3) != 0 {
+				return s
+			}
+			usedKinds["setop_subquery"] = true
+			k := setKinds[g.Intn(len(setKinds))]
+			o.Count("recnamed:setop_subquery=" + k.kw)
+			var r subq
+			if g.Intn(3) == 0 {
+				h := "h" + strconv.Itoa(nsub)
+				r = sel(edgeRef(h, false), nref(h, "dst"), eqRef(nref(h, "src"), nref(xa, "c0")), nil)
+			} else {
+				z := "w" + strconv.Itoa(nsub)
+				var w *cond
+				switch g.Intn(3) {
+				case 0:
+					w = eqRef(nref(z, "c1"), nref(xa, "c1"))
+				case 1:
+					w = &cond{op: "cmp", cop: []string{"<>", "<", ">="}[g.Intn(3)], e: []expr{nref(z, "c0"), target}}
+				}
+				r = sel(recRef(z, true), nref(z, item), w, nil)
+			}
+			if g.Intn(2) == 0 {
+				return setJoin(k, r, s)
+			}
+			return setJoin(k, s, r)
+		}
 		kind := g.Intn(8)
 		if depth == 0 && kind == 5 {
 			kind = 0
@@ -348,7 +400,7 @@ func recursiveNamedCase(g *hc.Gen, pr *hc.Proc, o *hc.Out, x *ngen, dir string, 
 			if g.Intn(3) == 0 {
 				w = eqRef(nref(y, "c1"), nref(xa, "c1"))
 			}
-			s := sel(recRef(y, true), nref(y, "c0"), w, nil)
+			s := withSet(sel(recRef(y, true), nref(y, "c0"), w, nil), "c0")
 			return &cond{op: "insub", neg: g.Intn(2) == 0, e: []expr{target}, subSQL: s.sql, sub: add(s)}
 		case 1: // [NOT] EXISTS, correlated
 			usedKinds["exists"] = true
@@ -356,7 +408,7 @@ func recursiveNamedCase(g *hc.Gen, pr *hc.Proc, o *hc.Out, x *ngen, dir string, 
 			if g.Intn(3) == 0 {
 				w = andCond(w, &cond{op: "cmp", cop: "<>", e: []expr{nref(y, "c1"), nref(xa, "c1")}})
 			}
-			s := sel(recRef(y, true), nref(y, "c0"), w, nil)
+			s := withSet(sel(recRef(y, true), nref(y, "c0"), w, nil), "c0")
 			cd := &cond{op: "exists", subSQL: s.sql, sub: add(s)}
 			if g.Intn(3) == 0 {
 				return &cond{op: "not", a: cd}
@@ -364,12 +416,12 @@ func recursiveNamedCase(g *hc.Gen, pr *hc.Proc, o *hc.Out, x *ngen, dir string, 
 			return cd
 		case 2: // scalar (several records of the node in the working view: `too many records`)
 			usedKinds["scalar"] = true
-			s := sel(recRef(y, true), nref(y, "c1"), eqRef(nref(y, "c0"), nref(xa, "c0")), nil)
+			s := withSet(sel(recRef(y, true), nref(y, "c1"), eqRef(nref(y, "c0"), nref(xa, "c0")), nil), "c1")
 			return &cond{op: "cmp", cop: []string{"=", "=", "<>", "<=", "=="}[g.Intn(5)],
 				e: []expr{nref(xa, "c1"), {scalar: true, subSQL: s.sql, sub: add(s)}}}
 		case 3: // ANY
 			usedKinds["any"] = true
-			s := sel(recRef(y, true), nref(y, "c0"), nil, nil)
+			s := withSet(sel(recRef(y, true), nref(y, "c0"), nil, nil), "c0")
 			return &cond{op: "anysub", cop: []string{"=", ">", ">=", "<>", "<"}[g.Intn(5)], e: []expr{target}, subSQL: s.sql, sub: add(s)}
 		case 4: // ALL
 			usedKinds["all"] = true
@@ -377,7 +429,7 @@ func recursiveNamedCase(g *hc.Gen, pr *hc.Proc, o *hc.Out, x *ngen, dir string, 
 			if g.Intn(2) == 0 {
 				w = eqRef(nref(y, "c1"), nref(xa, "c1"))
 			}
-			s := sel(recRef(y, true), nref(y, "c0"), w, nil)
+			s := withSet(sel(recRef(y, true), nref(y, "c0"), w, nil), "c0")
 			return &cond{op: "allsub", cop: []string{">=", "<=", "<>", "=", ">"}[g.Intn(5)], e: []expr{nref(xa, "c0")}, subSQL: s.sql, sub: add(s)}
 		case 5: // two levels: a sub-query over the edges with a sub-query over the working view
 			usedKinds["nested"] = true
@@ -410,8 +462,40 @@ func recursiveNamedCase(g *hc.Gen, pr *hc.Proc, o *hc.Out, x *ngen, dir string, 
 		anchorForm = "decoy"
 	} else if outside != nil && g.Intn(3) == 0 {
 		anchorForm = "table+decoy_subquery"
+	} else if g.Intn(4) == 0 {
+		anchorForm = "derived_setop"
 	}
 	switch anchorForm {
+	case "derived_setop": // a set operation as derived table in the anchor's FROM (an ordinary one, not the recursion)
+		a0 := nTable(e, ts, "a0")
+		var w *cond
+		if g.Intn(2) == 0 {
+			w = x.cond(0, a0.hdr)
+		}
+		lsql, ltok, _ := nQuery(e, a0, w, false, []nitem{{e: nref("a0", "k"), out: "c0"}, {e: nref("a0", "v"), out: "c1"}})
+		var r subq
+		for _, row := range ts.rows {
+			anchorKeys = append(anchorKeys, row[0])
+		}
+		if outside != nil && g.Intn(2) == 0 {
+			rsql, rtok, _ := nQuery(e, recRef("d0", false), nil, false, []nitem{{e: nref("d0", "c0"), out: "c0"}, {e: nref("d0", "c1"), out: "c1"}})
+			r = subq{rsql, rtok}
+			for _, row := range outside.rows {
+				anchorKeys = append(anchorKeys, row[0])
+			}
+		} else {
+			a1 := nTable(e, ts, "a1")
+			rsql, rtok, _ := nQuery(e, a1, x.cond(0, a1.hdr), false, []nitem{{e: nref("a1", "k"), out: "c0"}, {e: nref("a1", "v"), out: "c1"}})
+			r = subq{rsql, rtok}
+			for _, row := range ts.rows {
+				anchorKeys = append(anchorKeys, row[0])
+			}
+		}
+		k := setKinds[g.Intn(len(setKinds))]
+		o.Count("recnamed:setop_anchor_derived=" + k.kw)
+		u := setJoin(k, subq{lsql, ltok}, r)
+		anchorSQL = "SELECT s0.c0 AS c0, s0.c1 AS c1 FROM (" + u.sql + ") AS s0"
+		anchorTok = append(append([]string{"Q", "A", "s0", "0"}, u.tok...), "-", "L", "2", "r", "s0", "c0", "c0", "r", "s0", "c1", "c1")
 	case "decoy": // the idiom WITH RECURSIVE t AS (SELECT … FROM t …): here the name is still the object outside
 		from := recRef("d0", false)
 		var w *cond
@@ -451,6 +535,7 @@ func recursiveNamedCase(g *hc.Gen, pr *hc.Proc, o *hc.Out, x *ngen, dir string, 
 	xa, ea := "x1", "e1"
 	dstRef, payRef := nref("e1", "dst"), nref("e1", "v")
 	npreds := []int{0, 1, 1, 1, 2}[g.Intn(5)]
+	preFactor, postFactor := 1, 1
 	on := eqRef(nref("e1", "src"), nref("x1", "c0"))
 	switch form {
 	case "join":
@@ -483,8 +568,25 @@ func recursiveNamedCase(g *hc.Gen, pr *hc.Proc, o *hc.Out, x *ngen, dir string, 
 		if iw != nil {
 			isql += " WHERE " + sqlCond(iw, nil, nil)
 		}
-		d := nsrc{sql: "(" + isql + ") AS x1", hdr: []col{{"x1", "c0", false}, {"x1", "c1", false}}}
-		d.tok = append([]string{"A", "x1", "0"}, qsTok(isubs, inner, e, iw, nil, -1)...)
+		dq := subq{isql, qsTok(isubs, inner, e, iw, nil, -1)}
+		if g.Intn(2) == 0 {
+			// the derived table is a set operation of two reads of the working view
+			y9 := recRef("y9", true)
+			var w9 *cond
+			if g.Intn(3) != 0 {
+				w9 = x.cond(0, y9.hdr)
+			}
+			rsql, rtok, _ := nQuery(e, y9, w9, true, nil)
+			k := setKinds[g.Intn(len(setKinds))]
+			o.Count("recnamed:setop_step_derived=" + k.kw)
+			usedKinds["setop_derived"] = true
+			if k.kw == "UNION ALL" {
+				preFactor = 2
+			}
+			dq = setJoin(k, dq, subq{rsql, rtok})
+		}
+		d := nsrc{sql: "(" + dq.sql + ") AS x1", hdr: []col{{"x1", "c0", false}, {"x1", "c1", false}}}
+		d.tok = append([]string{"A", "x1", "0"}, dq.tok...)
 		from = nJoin(e, 'I', d, edgeRef("e1", useEC && g.Intn(2) == 0), 'o', nil, on)
 	case "lateral": // the edges of the record at hand, chosen by a LATERAL sub-select that looks at the working view
 		l := recRef("x1", true)
@@ -497,6 +599,28 @@ func recursiveNamedCase(g *hc.Gen, pr *hc.Proc, o *hc.Out, x *ngen, dir string, 
 		ef := edgeRef("e1", false)
 		ssql := "SELECT e1.dst AS d, e1.v AS pv FROM " + ef.sql + " WHERE " + sqlCond(lw, nil, nil)
 		stok := qsTok(lsubs, ef, e, lw, []string{"r", "e1", "dst", "d", "r", "e1", "v", "pv"}, 2)
+		if g.Intn(3) == 0 {
+			// the LATERAL sub-select is a set operation: successors EXCEPT / INTERSECT the working view, or UNION further edges
+			k := setKinds[g.Intn(len(setKinds))]
+			o.Count("recnamed:setop_lateral=" + k.kw)
+			usedKinds["setop_lateral"] = true
+			var r subq
+			if k.tok == "U" {
+				h := nTable(e, te, "h1")
+				w := andCond(eqRef(nref("h1", "src"), nref("x1", "c0")),
+					&cond{op: "cmp", cop: []string{">", "<=", "<>"}[g.Intn(3)], e: []expr{nref("h1", "dst"), {lit: value.NewInteger(int64(g.Intn(m)))}}})
+				rsql, rtok, _ := nQuery(e, h, w, false, []nitem{{e: nref("h1", "dst"), out: "d"}, {e: nref("h1", "v"), out: "pv"}})
+				r = subq{rsql, rtok}
+				if k.all {
+					postFactor *= 2
+				}
+			} else {
+				rsql, rtok, _ := nQuery(e, recRef("y8", true), nil, false, []nitem{{e: nref("y8", "c0"), out: "d"}, {e: nref("y8", "c1"), out: "pv"}})
+				r = subq{rsql, rtok}
+			}
+			u := setJoin(k, subq{ssql, stok}, r)
+			ssql, stok = u.sql, u.tok
+		}
 		kind := "CI"[g.Intn(2)]
 		from = nsrc{isJoin: true, hdr: append(append([]col{}, l.hdr...), col{"s", "d", false}, col{"s", "pv", false})}
 		from.tok = append(append(append([]string{"JL", string(kind)}, l.tok...), "A", "s", "0"), stok...)
@@ -548,7 +672,6 @@ func recursiveNamedCase(g *hc.Gen, pr *hc.Proc, o *hc.Out, x *ngen, dir string, 
 		stepSQL += " WHERE " + sqlCond(where, nil, nil)
 	}
 	stepTok := qsTok(subs, from, e, where, itemTok, 2)
-
 	// ---- limit: small on cycles; never more steps than keep the working view small ----
 	limit := 1000
 	if g.Intn(5) == 0 {
@@ -557,13 +680,43 @@ func recursiveNamedCase(g *hc.Gen, pr *hc.Proc, o *hc.Out, x *ngen, dir string, 
 	if cyclic {
 		limit = 2 + g.Intn(4)
 	}
-	if limit > 12 {
-		if b := recBound(anchorKeys, edges, form == "selfjoin", 12, 300); b < 12 {
-			limit = b
+	boundFor := func(post int) int {
+		if limit > 12 {
+			if b := recBound(anchorKeys, edges, preFactor, form == "selfjoin", post, 12, 300); b < 12 {
+				return b
+			}
+			return limit
 		}
-	} else {
-		limit = recBound(anchorKeys, edges, form == "selfjoin", limit, 300)
+		return recBound(anchorKeys, edges, preFactor, form == "selfjoin", post, limit, 300)
 	}
+	stepAloneSQL := stepSQL // the member as a statement of its own (law)
+	stepForm := "single"
+	// (while the limit error of a parenthesised right-hand side panics - parenLimitPanics - the form is written only
+	// where the recursion ends by itself: an acyclic graph, no limit below the depth of the graph)
+	if g.Intn(4) == 0 && (!parenLimitPanics || (!cyclic && boundFor(postFactor*2) == 1000)) {
+		// anchor UNION [ALL] (m1 <op> m2): the right-hand side is a query of its own, both members read the working view
+		stepForm = "two_members"
+		x9, e9 := recRef("x9", true), nTable(e, te, "e9")
+		j := nJoin(e, 'I', x9, e9, 'o', nil, eqRef(nref("e9", "src"), nref("x9", "c0")))
+		var w9 *cond
+		if g.Intn(2) == 0 {
+			w9 = x.cond(0, x9.hdr)
+		}
+		m2sql, m2tok, _ := nQuery(e, j, w9, false, []nitem{{e: nref("e9", "dst"), out: "c0"}, {e: []expr{nref("x9", "c1"), nref("e9", "v")}[g.Intn(2)], out: "c1"}})
+		k := setKinds[g.Intn(len(setKinds))]
+		if g.Intn(2) == 0 {
+			k = setKinds[1] // UNION ALL, the usual spelling
+		}
+		o.Count("recnamed:setop_two_members=" + k.kw)
+		if k.kw == "UNION ALL" {
+			postFactor *= 2
+		}
+		u := setJoin(k, subq{stepSQL, stepTok}, subq{m2sql, m2tok})
+		stepAloneSQL, stepTok = u.sql, u.tok
+		stepSQL = "(" + u.sql + ")"
+	}
+
+	limit = boundFor(postFactor)
 	distinct := g.Intn(3) == 0
 	setop, opTok := "UNION ALL", "A"
 	if distinct {
@@ -571,13 +724,29 @@ func recursiveNamedCase(g *hc.Gen, pr *hc.Proc, o *hc.Out, x *ngen, dir string, 
 	}
 
 	// ---- the body ----
-	bodyForm := []string{"star", "star", "filter", "subquery"}[g.Intn(4)]
-	if hasOuter {
+	bodyForm := []string{"star", "star", "filter", "subquery", "setcte"}[g.Intn(5)]
+	if hasOuter && bodyForm != "setcte" {
 		bodyForm = "star"
 	}
 	var bodySQL string
 	var bodyTok []string
+	laterDef := "" // a common table expression defined after the recursive one
 	switch bodyForm {
+	case "setcte": // WITH RECURSIVE name …, u AS (… name … <op> … name …) SELECT * FROM u
+		un := fmt.Sprintf("ru%d", epoch)
+		b3, b4 := recRef("b3", true), recRef("b4", true)
+		var w3 *cond
+		if g.Intn(2) == 0 {
+			w3 = x.cond(0, b3.hdr)
+		}
+		lsql, ltok, _ := nQuery(e, b3, w3, true, nil)
+		rsql, rtok, _ := nQuery(e, b4, x.cond(1, b4.hdr), true, nil)
+		k := setKinds[g.Intn(len(setKinds))]
+		o.Count("recnamed:setop_later_cte=" + k.kw)
+		u := setJoin(k, subq{lsql, ltok}, subq{rsql, rtok})
+		laterDef = ", " + un + " AS (" + u.sql + ")"
+		bodySQL = "SELECT * FROM " + un
+		bodyTok = append(append([]string{"W", un, "0"}, u.tok...), "Q", "N", un, "-", "*")
 	case "star":
 		bodySQL, bodyTok = "SELECT * FROM "+name, []string{"Q", "N", name, "-", "*"}
 	case "filter":
@@ -608,7 +777,8 @@ func recursiveNamedCase(g *hc.Gen, pr *hc.Proc, o *hc.Out, x *ngen, dir string, 
 	if useEC {
 		withRec += ecSQL + ", "
 	}
-	withRec += recDef + " "
+	withRecOnly := withRec + recDef + " "
+	withRec += recDef + laterDef + " "
 	mkPlan := func(body []string) []string {
 		p := append([]string{}, ecDef...)
 		p = append(append(p, "WR", name), colTok...)
@@ -653,7 +823,13 @@ func recursiveNamedCase(g *hc.Gen, pr *hc.Proc, o *hc.Out, x *ngen, dir string, 
 			tabs = append(tabs, t)
 		}
 	}
-	run := func(sql string) (string, bool) {
+	run := func(sql string) (res string, ok bool) {
+		defer func() {
+			if r := recover(); r != nil {
+				o.Law("recursive_query_panics", map[string]interface{}{"sql": sql, "panic": fmt.Sprint(r), "session": sessionText, "tables": dumpTables(tabs)})
+				res, ok = "", false
+			}
+		}()
 		v, err := pr.Query(sql)
 		if err != nil {
 			if _, ok := err.(*query.RecursionExceededLimitError); ok {
@@ -684,19 +860,21 @@ func recursiveNamedCase(g *hc.Gen, pr *hc.Proc, o *hc.Out, x *ngen, dir string, 
 	o.Count("recnamed:anchor=" + anchorForm)
 	o.Count("recnamed:outcome=" + outcome)
 	var kinds []string
-	for _, k := range []string{"all", "any", "exists", "in", "nested", "scalar", "scalar_item", "subjoin"} {
+	for _, k := range []string{"all", "any", "exists", "in", "nested", "scalar", "scalar_item", "setop_derived", "setop_lateral", "setop_subquery", "subjoin"} {
 		if usedKinds[k] {
 			o.Count("recnamed:subquery=" + k)
 			kinds = append(kinds, k)
 		}
 	}
-	o.NonTrivial(fmt.Sprintf("recnamed:%s:%s:%d:%s:%s:%s:%s:%s", form, strings.Join(kinds, "+"), decoy, anchorForm, setop, graph, bodyForm, rowsBand))
+	o.Count("recnamed:step=" + stepForm)
+	o.Count("recnamed:body=" + bodyForm)
+	o.NonTrivial(fmt.Sprintf("recnamed:%s:%s:%s:%d:%s:%s:%s:%s:%s", form, stepForm, strings.Join(kinds, "+"), decoy, anchorForm, setop, graph, bodyForm, rowsBand))
 
 	// ---- the same generations by separate non-recursive queries (implementation alone) ----
 	if distinct || g.Intn(2) == 0 {
 		return
 	}
-	wholeSQL := withRec + "SELECT * FROM " + name
+	wholeSQL := withRecOnly + "SELECT * FROM " + name
 	if hasOuter {
 		wholeSQL = outerDef + "SELECT * FROM (" + wholeSQL + ") AS s"
 	}
@@ -738,7 +916,7 @@ func recursiveNamedCase(g *hc.Gen, pr *hc.Proc, o *hc.Out, x *ngen, dir string, 
 		}
 		epoch++
 		gt := fmt.Sprintf("gq%d", epoch)
-		iterSQL = strings.ReplaceAll(strings.ReplaceAll(stepSQL, name+" AS ", gt+" AS "), strings.ToUpper(name)+" AS ", gt+" AS ")
+		iterSQL = strings.ReplaceAll(strings.ReplaceAll(stepAloneSQL, name+" AS ", gt+" AS "), strings.ToUpper(name)+" AS ", gt+" AS ")
 		if err := declareRaw(pr, gt, []string{"c0", "c1"}, gen); err != nil {
 			o.Law("recursive_sql_error", map[string]interface{}{"sql": "DECLARE " + gt, "error": err.Error()})
 			return
@@ -793,5 +971,33 @@ func scopeInheritWitness(pr *hc.Proc, o *hc.Out) {
 	o.Count("law_checks:now_inherited_by_nested_scopes")
 	if ok && len(got) != 3 {
 		o.Law("now_inherited_by_nested_scopes", map[string]interface{}{"setup": setup, "sql": sql, "expected_rows": 3, "got_rows": len(got)})
+	}
+}
+
+// parenLimitPanics: on this tree the recursion-limit error of `anchor UNION ALL (member)` - a parenthesised right-hand
+// side - is a panic instead of the error (NewRecursionExceededLimitError hands a parser.Subquery to
+// searchSelectClauseInSelectEntity, error.go).  Found by this generator, reported; measured at the start of every run
+// so that the generator reaches the limit in that form as soon as the tree is repaired.
+var parenLimitPanics bool
+
+func parenLimitWitness(dir string, o *hc.Out) {
+	pr := hc.NewProc(dir)
+	defer pr.Close()
+	pr.P.Tx.Flags.SetLimitRecursion(2)
+	sql := "WITH RECURSIVE pw (n) AS (SELECT 1 UNION ALL (SELECT n FROM pw)) SELECT * FROM pw"
+	func() {
+		defer func() {
+			if r := recover(); r != nil {
+				parenLimitPanics = true
+			}
+		}()
+		_, err := pr.Query(sql)
+		o.Eval()
+		if _, ok := err.(*query.RecursionExceededLimitError); !ok {
+			o.Law("recursive_sql_error", map[string]interface{}{"sql": sql, "limit_recursion": 2, "error": fmt.Sprint(err), "expected": "iteration of recursive query exceeded the limit"})
+		}
+	}()
+	if parenLimitPanics {
+		o.Count("finding:limit_error_of_parenthesised_member_panics")
 	}
 }
